@@ -106,6 +106,13 @@ struct Node {
     /// how the @import rules of this file are written: 0 = at the top level; otherwise the
     /// same file is imported inside style rules / @media, once or twice, at growing depth
     nest: u8,
+    /// targets this file loads with a configuration (`@use … with (…)`, `@forward … with (…)`)
+    configured: Vec<usize>,
+    /// `$cfg-<i>: 0 !default` declarations at the top of this file (it is somebody's configured target)
+    defaults: Vec<usize>,
+    /// a variable declared before the load directives (module configuration through `@import`
+    /// looks at the variables in scope)
+    top_var: bool,
 }
 
 fn render(node: &Node, nodes: &[Node], dir_of_loader: &str) -> String {
@@ -122,15 +129,22 @@ fn render(node: &Node, nodes: &[Node], dir_of_loader: &str) -> String {
     let semi = if sass { "" } else { ";" };
     let mut s = String::new();
     let needs_meta = node.loads.iter().any(|(_, l)| *l == Load::LoadCss);
+    if node.top_var {
+        s.push_str(&format!("$in-scope-before-loads: 1{}\n", semi));
+    }
     if needs_meta {
         s.push_str(&format!("@use \"sass:meta\"{}\n", semi));
     }
     for (i, l) in &node.loads {
+        let with = if node.configured.contains(i) { format!(" with ($cfg-{}: 1)", i) } else { String::new() };
         match l {
-            Load::Use => s.push_str(&format!("@use \"{}\" as m{}{}\n", rel(&nodes[*i].url), i, semi)),
-            Load::Forward => s.push_str(&format!("@forward \"{}\"{}\n", rel(&nodes[*i].url), semi)),
+            Load::Use => s.push_str(&format!("@use \"{}\" as m{}{}{}\n", rel(&nodes[*i].url), i, with, semi)),
+            Load::Forward => s.push_str(&format!("@forward \"{}\"{}{}\n", rel(&nodes[*i].url), with, semi)),
             _ => {}
         }
+    }
+    for i in &node.defaults {
+        s.push_str(&format!("$cfg-{}: 0 !default{}\n", i, semi));
     }
     for (i, l) in &node.loads {
         if *l == Load::Import {
@@ -191,7 +205,7 @@ pub fn gen_project(rng: &mut Rng, corpus: &[CorpusItem], pools: &Pools, go: &Gen
     let ndeps = rng.range(1, go.max_deps as u64) as usize;
     let exts = ["scss", "scss", "scss", "sass", "sass", "css"];
     let entry_ext = *rng.pick(&["scss", "scss", "scss", "sass", "sass"]);
-    let mut nodes: Vec<Node> = vec![Node { path: format!("main.{}", entry_ext), url: "main".into(), ext: entry_ext, loads: vec![], body: String::new(), nest: 0 }];
+    let mut nodes: Vec<Node> = vec![Node { path: format!("main.{}", entry_ext), url: "main".into(), ext: entry_ext, loads: vec![], body: String::new(), nest: 0, configured: vec![], defaults: vec![], top_var: false }];
     for i in 1..=ndeps {
         let ext = *rng.pick(&exts);
         let sub = rng.chance(0.2);
@@ -202,7 +216,7 @@ pub fn gen_project(rng: &mut Rng, corpus: &[CorpusItem], pools: &Pools, go: &Gen
         let us = if partial { "_" } else { "" };
         let path = if index { format!("{}{}/{}index.{}", dir, base, us, ext) } else { format!("{}{}{}.{}", dir, us, base, ext) };
         let url = if rng.chance(0.15) && !index { format!("{}{}.{}", dir, base, ext) } else { format!("{}{}", dir, base) };
-        nodes.push(Node { path, url, ext, loads: vec![], body: String::new(), nest: 0 });
+        nodes.push(Node { path, url, ext, loads: vec![], body: String::new(), nest: 0, configured: vec![], defaults: vec![], top_var: false });
     }
     // wire: each dep is loaded by the entry or by an earlier non-css dep
     for i in 1..=ndeps {
@@ -215,6 +229,11 @@ pub fn gen_project(rng: &mut Rng, corpus: &[CorpusItem], pools: &Pools, go: &Gen
         }
         let kind = *rng.pick(&[Load::Import, Load::Import, Load::Use, Load::Use, Load::Forward, Load::LoadCss]);
         nodes[loader].loads.push((i, kind));
+        // a configured load: the target declares the variable with !default
+        if matches!(kind, Load::Use | Load::Forward) && nodes[i].ext != "css" && rng.chance(0.25) {
+            nodes[loader].configured.push(i);
+            nodes[i].defaults.push(i);
+        }
         // diamond: a second loader now and then (import only; a module loaded
         // twice through @use is legal as well)
         if i > 1 && loader != 0 && rng.chance(0.2) {
@@ -225,6 +244,7 @@ pub fn gen_project(rng: &mut Rng, corpus: &[CorpusItem], pools: &Pools, go: &Gen
         if rng.chance(0.25) {
             nodes[i].nest = rng.range(1, 5) as u8;
         }
+        nodes[i].top_var = nodes[i].ext != "css" && rng.chance(0.3);
         let loader = !nodes[i].loads.is_empty();
         nodes[i].body = body_for(rng, corpus, pools, nodes[i].ext, loader || i == 0);
     }
